@@ -359,16 +359,21 @@ PROPERTIES["C16"] = {
              scenarios={"quick": [dict(workers=1), dict(workers=2)], "thorough": [dict(workers=1), dict(workers=2), dict(workers=3, K=22)]},
              timeout_ms={"quick": 300000, "thorough": 1800000}, tiers=("quick", "thorough")),
     ],
-    "assumptions": NOTIFY_TRUST,
+    "assumptions": NOTIFY_TRUST + ["notify_one stores a single permit that the next awaiting task consumes (tokio's documented behaviour)"],
     "manifest": {
         "engine": "cfabmc",
-        "technique": "bounded model checking of interleavings (z3): CFAs of WaitGroup::wait / done extracted from MIR, scheduler as solver variables",
+        "technique": "bounded model checking of interleavings (z3): CFAs of WaitGroup::wait / done and LoadBalancer::wait_for_connection / deactivate extracted from MIR, scheduler as solver variables",
         "text": "With 1..3 workers calling done() and one task in wait(), over all interleavings of the individual counter / Notify operations: the waiter never remains parked on the Notify while the count is zero, done() never underflows, the re-check loop stays within its bound.",
         "design_ref": "DESIGN.md §5 C16",
         "note": "Only the WaitGroup kernel that Context::term() and socket shutdown wait on. NOT claimed: bounded completion time of close()/term(), errors after close, ports and inproc names being released, no task left running (actors, tokio, OS state).",
     },
     "outside": "everything except the WaitGroup kernel",
 }
+PROPERTIES["C16"]["cfabmc"].append(
+    dict(name="c16_deactivate_releases_all_senders", module="verifkit.cfabmc.lb_check",
+         scenarios={"quick": [dict(mode="deactivate", waiters=2)], "thorough": [dict(mode="deactivate", waiters=2), dict(mode="deactivate", waiters=3, K=36)]},
+         timeout_ms={"quick": 600000, "thorough": 3000000}, tiers=("quick", "thorough")))
+PROPERTIES["C16"]["manifest"]["text"] += " Closing a socket releases every sender parked in wait_for_connection: with 2 (3) senders parked and one deactivate(), no sender remains parked at the end of any interleaving."
 PROPERTIES["C13"]["cfabmc"] = [
     dict(name="c13_wait_for_connection", module="verifkit.cfabmc.lb_check", scenarios={"quick": [dict()], "thorough": [dict(K=20, wait_ops=12)]},
          timeout_ms={"quick": 300000, "thorough": 900000}, tiers=("quick", "thorough")),
@@ -396,13 +401,32 @@ PROPERTIES["C10"] = {
     "outside": "send/recv alternation, concurrent callers, REP socket, reply routing",
 }
 
+PROPERTIES["C18"] = {
+    "mirsym": [
+        M("c18_record_length_prefix", "d_c18", "record_length_prefix",
+          "LengthPrefixedFramer (the record layer of CURVE and NOISE_XX sessions) with an abstract cipher (16-byte tag followed by the plaintext): one message of 0, 1, 255, 256, 65000, 65508..65510, 65520 or 70000 payload bytes through write_msg_multipart, then the peer framer's try_read_msg",
+          budget={"quick": 200, "thorough": 300}, required_covers=["c18.record.roundtrip", "c18.record.roundtrip-long", "c18.record.refused-at-sender"]),
+        M("c18_heartbeat_through_record_layer", "d_c18", "heartbeat_through_record_layer",
+          "engine in the Data phase with the encrypted record layer installed as active framer (abstract cipher): the PING emitted by on_tick and the PONG emitted for an inbound (encrypted) PING are fed to a peer record layer",
+          budget={"quick": 200, "thorough": 300}, required_covers=["c18.heartbeat.roundtrip"]),
+    ],
+    "assumptions": MIRSYM_TRUST + ["the cipher is abstract: encrypt(p) = 16 opaque tag bytes followed by p, decrypt strips them; nothing about secrecy, tamper detection or nonce uniqueness is decided"],
+    "manifest": {
+        "engine": "mirsym",
+        "technique": "symbolic execution of the record layer and of the engine's Data-phase emitters (MIR, z3) with an abstract cipher; round trip through the peer's record layer",
+        "text": "Structural clause only: everything an endpoint emits in the Data phase of an encrypted session - a message of any of the boundary sizes, its PINGs and its PONGs - is either refused with an error at the sender or decoded by the peer's record layer to exactly what was sent (the 16-bit record length is never silently truncated; heartbeats travel inside the record layer).",
+        "design_ref": "DESIGN.md §5 C18",
+        "note": "NOT claimed: payloads never appearing in clear, detection of bit flips / truncation / replay / reordering, distinct ciphertexts across sessions - properties of the AEAD and of key derivation (the CURVE data keys derive from the static key pairs only and the nonce counter restarts at 1; recorded as an observation in DESIGN.md, not decided by a check).",
+    },
+    "outside": "secrecy, tamper detection, nonce/key freshness (cryptography); batches of several messages",
+}
+
 HOOK_COMMITS = ["e6aec85", "b7f56e8", "904f401", "7ede9e5"]
 
 NOT_APPLICABLE = {
     "C09": "cancellation needs the drop glue of the suspended coroutine; rustc's -Zunpretty=mir dump does not contain coroutine drop shims, Kani cannot run async socket code, and the socket-level futures of the eight socket types reach into SocketCore/tokio; what the interleaving check can say (ready_tx.send never blocks, so ReadyPipeSender::send can only be cancelled at the pipe-full await) is reported under C08, not claimed here",
     "C14": "SNDTIMEO/RCVTIMEO are wall-clock semantics of tokio timers around channel operations and the buffering bound is an end-to-end quantity across three tasks; there is no function whose symbolic execution states it, and a symbolic timer would verify the stub, not rzmq (DESIGN.md §5 C14)",
     "C15": "LINGER is a multi-actor shutdown protocol over tokio timers, mailboxes and kernel socket buffers; out of reach of solver-based checking of functions (DESIGN.md §5 C15)",
-    "C18": "secrecy / tamper detection are properties of the AEAD; the structural parts (record length prefix, heartbeats through the active framer) need the curve / noise_xx features whose MIR and cipher models were not built in the time available",
     "C20": "backend equivalence and kernel-object lifecycles (io_uring rings, fds) cannot be encoded; handlers need a live IoUring (DESIGN.md §5 C20)",
 }
 
